@@ -62,6 +62,67 @@ def run(ctx):
             rep = json.load(open(prefix + ".report.json"))
         except Exception:
             ctx.oblige("correspondence expr ran", False, (g.stdout[-200:] + d.stdout[-400:]))
+    # several expressions compiled in ONE process (as a simulation does), all kept alive, with and without a left-over temporary
+    # file of a dead process with the same process id: every compiled function must still compute what it computes when it is
+    # the only one compiled (oracle on the real code; the per-expression comparison above forks one process per expression)
+    gbad, ngroups, nstale, gexprs = [], 0, 0, 0
+    if hok and os.path.exists(prefix + ".req"):
+        import random
+        gr = random.Random(ctx.seed * 7919 + 3)
+        blocks, cur = [], None
+        for l in open(prefix + ".req").read().splitlines():
+            if l == "reset":
+                cur = dict(vars=[], exprs=[])
+                blocks.append(cur)
+            elif cur is not None and l.startswith("var "):
+                cur["vars"].append(l)
+            elif cur is not None and l.startswith("expr ") and "uran" not in l and len(l) < 200:
+                cur["exprs"].append(l[5:])
+        blocks = [b for b in blocks if len(b["exprs"]) >= 3]
+        gr.shuffle(blocks)
+        want = 24 if not ctx.thorough else 300
+        lines, plan = [], []
+        for b in blocks[:want]:
+            ex = gr.sample(b["exprs"], min(len(b["exprs"]), gr.randrange(3, 6)))
+            stale = gr.choice([-1, 0, 0, 1, 2])
+            plan.append((b["vars"], ex, stale))
+            lines += ["reset"] + b["vars"] + ["expr " + e for e in ex] + ["group %d %d" % (stale, len(ex))] + ["gexpr " + e for e in ex]
+        gtmp = os.path.join(work, "gtmp")
+        os.makedirs(gtmp, exist_ok=True)
+        gp = subprocess.run([hbin, "20"], input="\n".join(lines) + "\n", stdout=subprocess.PIPE, stderr=subprocess.DEVNULL, text=True, timeout=7200,
+                            cwd=work, env=dict(os.environ, TMP=gtmp))
+        out = gp.stdout.splitlines()
+        pos = 0
+        for (vs, ex, stale) in plan:
+            single = []
+            for e in ex:
+                comp = None
+                while pos < len(out) and out[pos] != "end":
+                    if out[pos].startswith("compiled"):
+                        comp = out[pos]
+                    pos += 1
+                pos += 1
+                single.append(comp)
+            g = {}
+            while pos < len(out) and out[pos] != "gend":
+                w = out[pos].split(" ", 2)
+                if w[0] == "g" and len(w) == 3:
+                    g[int(w[1])] = w[2]
+                elif out[pos] in ("crash", "hang"):
+                    g["died"] = out[pos]
+                pos += 1
+            pos += 1
+            ngroups += 1
+            nstale += stale >= 0
+            gexprs += len(ex)
+            for i, e in enumerate(ex):
+                a, b2 = single[i], g.get(i)
+                if "died" in g or (a is not None and not a.startswith("compiled err") and a != b2):
+                    gbad.append(dict(what="compiled-in-group-differs", text=e, variables=vs, group=ex, index=i, stale_counter=stale,
+                                     compiled_alone=a, compiled_in_group=b2 if "died" not in g else g["died"]))
+                    break
+    ctx.oblige("oracle: %d groups of 3-5 expressions compiled in one process and kept alive (%d with a left-over temporary file of the same process id): every compiled function computes what it computes alone (%d expressions)"
+               % (ngroups, nstale, gexprs), ngroups > 0 and not gbad, str(gbad[:1])[:500])
     bad = rep["bad"] if rep else []
     stat = rep["summary"]["stat"] if rep else {}
     impl = [b for b in bad if b["what"] in IMPL_KINDS]
@@ -90,11 +151,12 @@ def run(ctx):
                         "PARTIAL: names containing operator/function names (e.g. `Temp` read as `T(emp)`) are outside C03_parse_render; uran is random (compared by range only)"]
     if not all(o[1] for o in ctx.obligations):
         failing = [o[0] for o in ctx.obligations if not o[1]]
-        if impl:
-            b = impl[0]
+        if impl or gbad:
+            b = (impl + gbad)[0]
             ctx.violation("C03 violated on the real code (%s): %s" % (b["what"], json.dumps(b["text"], ensure_ascii=False)[:200]),
                           dict(kind="input", failing_obligations=failing, what=b["what"], expression=b["text"], model=b.get("model"), real=b.get("real"),
-                               how_to_replay="printf 'reset\\nvar ...\\nexpr <text>\\n' | .work/bin/h_parser  (request format: sim/gen_expr.py); compare `value` and `compiled` lines"), True)
+                               group=b.get("group"), variables=b.get("variables"), stale_counter=b.get("stale_counter"), compiled_alone=b.get("compiled_alone"), compiled_in_group=b.get("compiled_in_group"),
+                               how_to_replay="printf 'reset\\nvar ...\\nexpr <text>\\n' | .work/bin/h_parser  (request format: sim/gen_expr.py); compare `value` and `compiled` lines; for a group: reset, var lines, `group <stale_counter> <n>` followed by n lines `gexpr <text>` (TMP set to an empty directory)"), True)
         else:
             ctx.violation("C03 is no longer shown to hold: " + "; ".join(failing[:3]),
                           dict(kind="proof-or-correspondence", failing_obligations=failing, lake_errors=getattr(ctx, "lake_errors", []),
